@@ -241,7 +241,9 @@ pub fn main(args: &[String]) -> i32 {
     let threads = std::env::var("VH_THREADS").ok().and_then(|s| s.parse().ok()).unwrap_or(8usize);
     let n = scenarios.len();
     let next = std::sync::atomic::AtomicUsize::new(0);
-    let results: Vec<std::sync::Mutex<Option<Vec<J>>>> = (0..n).map(|_| std::sync::Mutex::new(None)).collect();
+    // every finished run is written out (one contiguous block, in order of completion) and dropped at once: the event
+    // values of a long run take gigabytes as JSON trees
+    let out = std::sync::Mutex::new(std::io::BufWriter::new(std::fs::File::create(&args[1]).expect("create out")));
     std::thread::scope(|s| {
         for _ in 0..threads.min(n.max(1)) {
             s.spawn(|| {
@@ -251,17 +253,19 @@ pub fn main(args: &[String]) -> i32 {
                         break;
                     }
                     let evs = run_scenario(&scenarios[i]);
-                    *results[i].lock().unwrap() = Some(evs);
+                    let mut text = String::with_capacity(evs.len() * 256);
+                    text.push_str(&json!({"ev": "reset", "run": i, "scenario": scenarios[i]}).to_string());
+                    text.push('\n');
+                    for ev in evs {
+                        text.push_str(&ev.to_string());
+                        text.push('\n');
+                    }
+                    let mut o = out.lock().unwrap();
+                    o.write_all(text.as_bytes()).unwrap();
                 }
             });
         }
     });
-    let mut out = std::io::BufWriter::new(std::fs::File::create(&args[1]).expect("create out"));
-    for (i, sc) in scenarios.iter().enumerate() {
-        writeln!(out, "{}", json!({"ev": "reset", "run": i, "scenario": sc})).unwrap();
-        for ev in results[i].lock().unwrap().take().unwrap_or_default() {
-            writeln!(out, "{ev}").unwrap();
-        }
-    }
+    out.lock().unwrap().flush().unwrap();
     0
 }
